@@ -20,10 +20,18 @@ def setup(chk, props):
     chk.prove(props + ["Properties_Code_Reporter.v", "Properties_Code_Runner.v"])
     chk.cov["trusted_base"] = TRUSTED_C + [
         "tools/srccode.py + clang JSON AST: read_reporter_results(), reporter_finish_test(), reporter_finish_suite() and the notification functions are translated whole (loops included) into CLite programs on every run; coq/CLite.v (the interpreter that gives them meaning) and the refinement proofs of Lemmas_Code_Reporter.v tie Runner.v's model of them to the code",
+        "run_every_test(), run_named_test() (src/runner.c) with has_test(), count_tests() (src/suite.c) are translated whole and run by the extracted interpreter on heaps built from every small suite tree; the order of suite starts, suite fixtures, tests and suite ends is compared with Runner.run_node / run_named (function-level correspondence, not a proof)",
         "likewise run_the_test_code(), run_test_in_the_current_process(), run_test_suite(), run_single_test() of src/runner.c and in_child_process(), die_in(), stop() of src/posix_runner_platform.c (Properties_Code_Runner.v): the order of reset / setup / body / teardown / tally / completion that Runner.child_steps assumes is the order of calls of the translated code; external functions are calls recorded in a trace, answering from streams",
         "axioms: see coverage.print_assumptions"]
     import codetie
     chk.code_cases = codetie.reporter_cases(chk)
+    # run_every_test() / run_named_test() (with has_test, count_tests of src/suite.c) translated whole and run by the
+    # extracted interpreter on every small tree against the order of events of Runner.run_node / run_named; trees on
+    # which they differ go to the real runner as well
+    for line, root in codetie.walk(chk)[:8]:
+        mode = "forked" if line.startswith("(walk forked") else "inproc" if line.startswith("(walk inproc") else ("single", int(line.split()[1]))
+        for rep in ("text", "cute"):
+            chk.code_cases.append((root, rep, mode))
     return drv
 
 
@@ -838,6 +846,7 @@ def check_C08(chk):
             rep = chk.rng.choice(L.REPORTERS)
             cases.append((root, rep, ("single", 7)))
             cases.append((root, rep, "forked"))
+    cases += chk.code_cases
     runs, mrs = run_cases(drv, cases)
     correspondence(chk, cases, runs, mrs)
     for (root, rep, mode), run, mr in zip(cases, runs, mrs):
